@@ -270,10 +270,15 @@ def r043(report, g, lm):
     for ptype in g.tokens:
         for ntype in ('LINE_TERMINATOR',) + others:
             ev = Evaluator(lm.module, 'Lexer', methods, functions)
-            lexer = mk_lexer_obj(prev=None, cur=tok(ptype), lm=lm)
+            lexer = mk_lexer_obj(lm=lm)
             new = tok(ntype)
-            lexer.get_lexer_token = ('pyfunc', lambda new=new: new)
             try:
+                # the state after ptype is reached through the lexer's
+                # own transition function
+                first = tok(ptype)
+                lexer.get_lexer_token = ('pyfunc', lambda first=first: first)
+                ev.call(methods['_get_update_token'], [], self_obj=lexer)
+                lexer.get_lexer_token = ('pyfunc', lambda new=new: new)
                 ret, _ = ev.call(methods['_get_update_token'], [],
                                  self_obj=lexer)
             except Raised:
@@ -313,11 +318,13 @@ def r043(report, g, lm):
     for ptype in sorted(RESTRICTED_PREFIX) + ['ID', 'RPAREN', 'RBRACE']:
         for ctx, mk in sorted(stacks.items()):
             ev = Evaluator(lm.module, 'Lexer', methods, functions)
-            lexer = mk_lexer_obj(prev=None, cur=tok(ptype), stack=mk(),
-                                 lm=lm)
+            lexer = mk_lexer_obj(stack=mk(), lm=lm)
             new = tok('LINE_TERMINATOR')
-            lexer.get_lexer_token = ('pyfunc', lambda new=new: new)
             try:
+                first = tok(ptype)
+                lexer.get_lexer_token = ('pyfunc', lambda first=first: first)
+                ev.call(methods['_get_update_token'], [], self_obj=lexer)
+                lexer.get_lexer_token = ('pyfunc', lambda new=new: new)
                 ret, _ = ev.call(methods['_get_update_token'], [],
                                  self_obj=lexer)
             except Raised as e:
@@ -334,6 +341,126 @@ def r043(report, g, lm):
                 'call argument)' % (ptype, ctx, 'yields' if auto else
                                     'does not yield', ret),
                 where='lexers/es5.py:Lexer._get_update_token')
+    # comments between the keyword and the line break are transparent
+    # (ES5 7.4), a block comment containing a line break counts as one,
+    # and however many line breaks follow, one semicolon is supplied:
+    # every marker run of up to three items is fed through the lexer's
+    # own transition function after the keyword
+    kinds_ = (('LINE_TERMINATOR', '\n'), ('BLOCK_COMMENT', '/*c*/'),
+              ('BLOCK_COMMENT', '/*\n*/'), ('LINE_COMMENT', '//c'))
+    runs = []
+    for k in range(1, 4):
+        for run in itertools.product(kinds_, repeat=k):
+            if any(x[0] == 'LINE_COMMENT' and (
+                    i + 1 >= len(run) or run[i + 1][0] != 'LINE_TERMINATOR')
+                    for i, x in enumerate(run)):
+                continue
+            runs.append(run)
+    failing = {}
+    for ptype in sorted(RESTRICTED_PREFIX) + ['ID', 'NUMBER', 'RBRACE']:
+        for run in runs:
+            ev = Evaluator(lm.module, 'Lexer', methods, functions)
+            lexer = mk_lexer_obj(lm=lm)
+            autos = 0
+            try:
+                for t in [(ptype, None)] + list(run) + [('ID', 'x')]:
+                    new = tok(t[0], t[1])
+                    lexer.get_lexer_token = ('pyfunc', lambda new=new: new)
+                    ret, _ = ev.call(methods['_get_update_token'], [],
+                                     self_obj=lexer)
+                    if isinstance(ret, Obj) and ret.type == 'AUTOSEMI':
+                        autos += 1
+                    # a semicolon queued behind a comment that is still
+                    # delivered
+                    queued = [q for q in lexer.next_tokens if isinstance(
+                        q, Obj) and q.type == 'AUTOSEMI']
+                    autos += len(queued)
+                    lexer.next_tokens = [q for q in lexer.next_tokens
+                                         if q not in queued]
+            except Raised as e:
+                autos = 'raises %s' % e.text
+            has_lt = any(x[0] == 'LINE_TERMINATOR' or '\n' in x[1]
+                         for x in run)
+            want = 1 if (ptype in RESTRICTED_PREFIX and has_lt) else 0
+            label = ' '.join('BLOCK_COMMENT(multi-line)' if '\n' in x[1]
+                             and x[0] == 'BLOCK_COMMENT' else x[0]
+                             for x in run)
+            construct = '%s %s ID' % (ptype, label)
+            if autos == want:
+                rule.ok(construct)
+                continue
+            cls = '%s with comments: %s semicolon' % (
+                'restricted keyword' if ptype in RESTRICTED_PREFIX else
+                'other token', 'missing' if want and not autos else
+                'extra' if isinstance(autos, int) else 'error')
+            failing.setdefault(cls, []).append((construct, autos, want))
+    for cls, items in sorted(failing.items()):
+        c, autos, want = min(items, key=lambda it: len(it[0]))
+        rule.fail(cls, '%s  (+%d more runs)' % (c, len(items) - 1),
+                  '%s AUTOSEMI token(s) are supplied, 7.9.1 with 7.4 '
+                  'requires %d; failing runs: %s' % (
+                      autos, want, [i[0] for i in items[:6]]),
+                  where='lexers/es5.py:Lexer._get_update_token',
+                  witness=c)
+    # ... and the semicolon reaches the parser before the next real token,
+    # with the comment still delivered (Lexer.token evaluated on the raw
+    # stream, only the raw token source is a stand-in)
+    tokfn = methods.get('token')
+    if tokfn is None:
+        raise AnalysisError('Lexer.token vanished')
+    for kw in sorted(RESTRICTED_PREFIX):
+        for run, label in (
+                ((('LINE_TERMINATOR', '\n'),), 'line break'),
+                ((('BLOCK_COMMENT', '/*\n*/'),), 'multi-line comment'),
+                ((('BLOCK_COMMENT', '/*c*/'), ('LINE_TERMINATOR', '\n')),
+                 'comment, line break'),
+                ((('LINE_COMMENT', '//c'), ('LINE_TERMINATOR', '\n'),
+                  ('LINE_TERMINATOR', '\n')), 'line comment, two breaks')):
+            for yc in (False, True):
+                raw = [tok(kw)] + [tok(*x) for x in run] + [
+                    tok('ID', 'x'), None]
+                it = iter(raw)
+                lexer = mk_lexer_obj(lm=lm)
+                lexer.yield_comments = yc
+                lexer.lexer = Obj('PlyLexer', lexdata='ab', lexpos=0,
+                                  begin=('pyfunc', lambda state: None))
+                lexer.get_lexer_token = ('pyfunc', lambda it=it: next(it))
+                got = []
+                try:
+                    for _ in range(8):
+                        ev = Evaluator(lm.module, 'Lexer', methods,
+                                       functions)
+                        ret, _ys = ev.call(tokfn, [], self_obj=lexer)
+                        if ret is None:
+                            break
+                        got.append(ret.type)
+                except Raised as e:
+                    got.append('raises %s' % e.text)
+                want = [kw] + ([x[0] for x in run if x[0] != 'LINE_TERMINATOR']
+                               if yc else [])
+                # the semicolon comes with the first line break: after a
+                # comment that contains it, in place of a line terminator
+                want_yc = [kw]
+                placed = False
+                for x in run:
+                    is_lt = x[0] == 'LINE_TERMINATOR' or '\n' in x[1]
+                    if x[0] != 'LINE_TERMINATOR' and yc:
+                        want_yc.append(x[0])
+                    if is_lt and not placed:
+                        want_yc.append('AUTOSEMI')
+                        placed = True
+                want_yc.append('ID')
+                rule.check(got == want_yc,
+                           'delivery %s %s%s' % (
+                               kw, label, ' (comments yielded)' if yc
+                               else ''),
+                           'Lexer.token() on %s %s ID%s' % (
+                               kw, ' '.join(x[0] for x in run),
+                               ', comments yielded' if yc else ''),
+                           'the parser receives %r, expected %r' % (
+                               got, want_yc),
+                           where='lexers/es5.py:Lexer._token / '
+                           '_get_update_token')
     # the grammar must accept the inserted token right after the keyword
     by = {}
     for p in g.productions:
